@@ -434,7 +434,7 @@ def reset_first(ctx):
     n = 0
 
     def harmless(st):
-        if isinstance(st, ast.Expr) and isinstance(st.value, ast.Constant):
+        if isinstance(st, ast.Pass) or (isinstance(st, ast.Expr) and isinstance(st.value, ast.Constant)):
             return True
         if isinstance(st, ast.Expr) and isinstance(st.value, ast.Call) and (dotted(st.value.func) or '').startswith('logger.'):
             return not any(isinstance(x, (ast.Subscript, ast.Call)) and x is not st.value for a in list(st.value.args) for x in ast.walk(a) if not isinstance(x, ast.JoinedStr))
